@@ -278,3 +278,6 @@ _add("C01", "Item assignment a[i] = q is under contract: refused for a value of 
 _add("C18", "Item assignment: a refused assignment leaves the target as it was; a successful one writes the value's physical "
             "quantity in the target's unit into the selected elements only, keeps the target's unit and the value.")
 _add("C16", "x.copy() is proved to return independent data with the same numbers, dtype, unit, class and name.")
+_add("C13", "Proved in addition: UnitRegistry(lut=...) copies the caller's table (never aliases it); UnitRegistry.from_json "
+            "returns a registry that owns a freshly made table holding exactly the decoded rows (results of memoised "
+            "helpers carry a ghost mark: they may be shared with other callers); unyt_array.__setstate__ likewise.")
